@@ -103,3 +103,59 @@ def tables_restore():
                     setattr(ps, f, copy.deepcopy(v))
     ut[:] = _SNAP["ut"]
     return d
+
+
+# ------------------------------------------------------------------------------------------------ class-level state
+# State that outlives an *instance*: mutable containers stored on a class and the default-argument objects of its
+# functions.  A long-lived worker restores them (in place) between cases so that one history cannot leak into the
+# next; a check that wants to *see* such a leak builds a second instance before restoring.
+_CLS = None
+
+
+def _cls_slots(classes):
+    import types
+    for cls in classes:
+        for name, val in list(vars(cls).items()):
+            if name.startswith("__") and name != "__init__":
+                continue
+            if isinstance(val, (list, dict, set)):
+                yield (cls.__name__, name, "attr"), val
+            fn = val.__func__ if isinstance(val, (staticmethod, classmethod)) else val
+            if isinstance(fn, types.FunctionType):
+                for i, d in enumerate(fn.__defaults__ or ()):
+                    if isinstance(d, (list, dict, set)):
+                        yield (cls.__name__, name, "default%d" % i), d
+                for k, d in (fn.__kwdefaults__ or {}).items():
+                    if isinstance(d, (list, dict, set)):
+                        yield (cls.__name__, name, "kwdefault:" + k), d
+
+
+def class_state_snapshot(classes):
+    """remember the pristine content of every class-level container / mutable default of `classes`"""
+    global _CLS
+    _CLS = dict(classes=list(classes), attrs={c.__name__: set(vars(c)) for c in classes},
+                slots={key: (obj, copy.deepcopy(obj)) for key, obj in _cls_slots(classes)})
+
+
+def class_state_restore():
+    """restore in place; returns the list of slots that had changed (empty: nothing leaked)"""
+    if _CLS is None:
+        return []
+    changed = []
+    for key, (obj, pristine) in _CLS["slots"].items():
+        if obj != pristine:
+            changed.append(":".join(key))
+            if isinstance(obj, list):
+                obj[:] = copy.deepcopy(pristine)
+            else:
+                obj.clear()
+                obj.update(copy.deepcopy(pristine))
+    for cls in _CLS["classes"]:
+        for name in set(vars(cls)) - _CLS["attrs"][cls.__name__]:
+            if not name.startswith("__"):
+                changed.append("%s:%s:new-attribute" % (cls.__name__, name))
+                try:
+                    delattr(cls, name)
+                except Exception:
+                    pass
+    return changed
